@@ -100,6 +100,10 @@ pub fn make_case(class: u64, idx: u64, seed: u64) -> Case {
             if r.chance(1, 2) {
                 flags &= !ntlm::F_ALWAYS_SIGN;
             }
+            // a server may echo both character-set bits of the client's offer: Unicode then takes precedence (MS-NLMP 2.2.2.5)
+            if r.chance(1, 3) {
+                flags |= ntlm::F_OEM;
+            }
             cls = "flag-variants";
         }
         6 => {
